@@ -267,6 +267,22 @@ def encXTok : TTML.XTok → String
 
 def encXToks (l : List TTML.XTok) : String := " ".intercalate (l.map encXTok)
 
+/-- Documents the independent decoder accepts but on which the library is known to differ, outside the
+    property's quantifier (kernel-checked witnesses `cexBig`, `cexBr` in `Props/C03read.lean`): a number of 19
+    digits or more in an attribute value (the decoder computes with exact rationals, the library reports a range
+    error) and a `br` element carrying a `zIndex` that is not an integer (the decoder ignores the attributes of
+    `br`, encoding/xml decodes every child of `p` into an item and fails). Not judged by the read predicate. -/
+def ttmlOutside (toks : List TTML.XTok) : Bool :=
+  let rec longDigits : List Char → Nat → Bool
+    | [], n => decide (19 ≤ n)
+    | c :: rest, n => if c.isDigit then longDigits rest (n + 1) else decide (19 ≤ n) || longDigits rest 0
+  toks.any fun t =>
+    match t with
+    | .start _ name attrs =>
+      attrs.any (fun (_, _, v) => longDigits v 0) ||
+      (TTML.isBr name && attrs.any fun (_, k, v) => toLowerAscii k = "zindex".toList && (atoi (trimSpace v)).isNone)
+    | _ => false
+
 end TTMLD
 
 open TTMLD in
@@ -298,6 +314,7 @@ def handleTTML (op : String) (args impl : List String) : Verdict :=
         compareS m (" ".intercalate v.res) fun _ =>
           -- C03 (read): a well-formed document is read as what it denotes
           if !v.toksOk then true else
+          if ttmlOutside v.toks then true else
           match Spec.TTML.decode (specToks v.toks) with
           | none => true
           | some d =>
